@@ -3,6 +3,7 @@
 package builtinfunctions
 
 import (
+	"strings"
 	"math"
 
 	"go.flow.arcalot.io/engine/internal/verifrt"
@@ -396,4 +397,38 @@ func VerifH_C18_float_string_roundtrip_special() {
 	}
 	verifrt.Assert(r == a, "stringToFloat(floatToString(a)) == a")
 	verifrt.Assert(math.Signbit(r) == math.Signbit(a), "the round trip keeps the sign (of zero too)")
+}
+
+// splitString on concrete probes (strings.Split is not modelled symbolically): the result is a value of the
+// declared output type (a list within the declared length bounds), re-joining gives the string back, and no
+// part contains the separator.
+func VerifH_C18_splitString_probes() {
+	fn := getSplitStringFunction()
+	h := verifHandler(fn).(func(string, string) []string)
+	strs := []string{"", "a", "a,b", ",", ",,", "ab", "a,b,c"}
+	seps := []string{"", ",", "ab", ",,"}
+	s := strs[verifrt.Choice("string", len(strs))]
+	sep := seps[verifrt.Choice("separator", len(seps))]
+	parts := h(s, sep)
+	out, ok := fn.(*schema.CallableFunctionSchema).StaticOutputValue.(*schema.ListSchema)
+	verifrt.Assert(ok, "splitString declares a list as its result")
+	if ok {
+		if out.MinValue != nil {
+			verifrt.Assert(int64(len(parts)) >= *out.MinValue, "splitString returns at least the declared minimum number of items")
+		}
+		if out.MaxValue != nil {
+			verifrt.Assert(int64(len(parts)) <= *out.MaxValue, "splitString returns at most the declared maximum number of items")
+		}
+	}
+	joined := ""
+	for i, p := range parts {
+		if i > 0 {
+			joined += sep
+		}
+		joined += p
+		if sep != "" {
+			verifrt.Assert(!strings.Contains(p, sep), "no part contains the separator")
+		}
+	}
+	verifrt.Assert(joined == s, "joining the parts with the separator gives the string back")
 }
